@@ -179,14 +179,16 @@ Theorem c12_src_ring_step : forall k i, 0 <= k < 63 -> 0 <= i < 2 ^ k ->
 Proof. exact src_ring_step. Qed.
 Print Assumptions c12_src_ring_step.
 
-(* the head of Rotate (early returns, n %= q.count, modBits) is the translated source's;
-   rotate_rest is the model's remaining element-moving part *)
+(* the head of Rotate (early returns, n %= q.count, modBits, the full-buffer fast path) is the
+   translated source's: the model is "run the fragment; if it returned, the deque has the head
+   and tail it assigned; otherwise move the elements (rotate_moves) with its n and modBits" *)
 Theorem c12_src_rotate : forall (A : Type) (nilv : A) (d : @deque A) n0,
-  cap d < 2 ^ 63 -> - 2 ^ 63 <= count d < 2 ^ 63 -> - 2 ^ 63 <= n0 < 2 ^ 63 ->
+  cap d < 2 ^ 63 -> - 2 ^ 62 < count d < 2 ^ 62 -> - 2 ^ 63 <= n0 < 2 ^ 63 ->
+  - 2 ^ 62 < head d < 2 ^ 62 -> - 2 ^ 62 < tail d < 2 ^ 62 ->
   rotate nilv d n0 =
-  match go_Deque_Rotate_prefix (count d) (cap d) n0 with
-  | Lib.GoSem.Ok None => Some d
-  | Lib.GoSem.Ok (Some (n, modBits)) => rotate_rest nilv d n modBits
+  match go_Deque_Rotate_prefix (head d) (tail d) (count d) (cap d) n0 with
+  | Lib.GoSem.Ok (Lib.GoSem.Returned _ (h, t)) => Some (mkDeque (buf d) h t (count d) (minCap d))
+  | Lib.GoSem.Ok (Lib.GoSem.Reached (n, modBits, _, _)) => rotate_moves nilv d n modBits
   | Lib.GoSem.Panic | Lib.GoSem.OutOfFuel => None
   end.
 Proof. exact @src_rotate. Qed.
